@@ -15,7 +15,7 @@ RULE = ("modules of set() commands with 0..5 values in every single-argument for
         "(name, type by value count, default as written, option note/help/default/bool). Non-trivial: a value list "
         "containing a quoted value with an escaped quote, an empty string, a bracket argument, a single character or "
         "an unquoted value ending in an escaped quote; distinct by SHA-1 of the case")
-RULE_MORE = "values ending in ':' / '::', class / member / test contexts around the set() and option() commands. Later: literal tabs, NFKC-unstable characters."
+RULE_MORE = "values ending in ':' / '::', class / member / test contexts around the set() and option() commands. Later: literal tabs, NFKC-unstable characters; (round 10) characters str.splitlines() breaks on (FF, VT, FS, NEL, LS, PS) inside values and help texts."
 ASSUMPTIONS = ["for a value containing a line break only the first line of the default is compared (the field is one line)",
                "for UNSET only the type field is constrained"]
 BUDGET = {"quick": {"shards": 8, "examples": 250}, "thorough": {"shards": 16, "examples": 4000}}
@@ -27,7 +27,7 @@ VALUES = G.IDENT_T + G.UNQ_T + G.VAR_T + G.BRACKET_T + G.QUOTED_T + [
 
 
 def strategy(tier):
-    tricky = st.sampled_from(['""', '"a\\"b@"', '"\\"@\\""', "x", '"x"', 'a@\\"', '\\"@', "[[]]", "Ns@::", '"My Lib@::"', '" lead@"', '"a@\\\\"', '"two@\nlines"', '"cont@\\\nline"'])
+    tricky = st.sampled_from(['"left\x0cright@"', '"nel\x85ls\u2028ps\u2029@"', '"vt\x0bfs\x1c@"', '""', '"a\\"b@"', '"\\"@\\""', "x", '"x"', 'a@\\"', '\\"@', "[[]]", "Ns@::", '"My Lib@::"', '" lead@"', '"a@\\\\"', '"two@\nlines"', '"cont@\\\nline"'])
     one = st.one_of(st.sampled_from(VALUES), tricky)
     vals = G.weighted((1, st.just([])), (3, st.lists(one, min_size=1, max_size=1)), (2, st.lists(one, min_size=2, max_size=5)))
     docline = G.weighted((4, G.benign_line()), (1, st.just("")),
@@ -37,7 +37,7 @@ def strategy(tier):
     p = G.Profile(kinds={"set", "option", "func", "block", "generic", "class", "attr", "member", "test", "section"},
                   weights={"set": 4, "option": 4, "func": 2, "block": 2, "generic": 1, "class": 1, "attr": 1, "member": 1, "test": 1, "section": 1},
                   p_doc_mostly=True, set_values=vals, doc=doc,
-                  option_help=st.sampled_from(['"Help\twith a tab @"', '"Help @"', "HELP@", '"help: with colon @"', '"he said \\"@\\""', "${help@}",
+                  option_help=st.sampled_from(['"Help\x0cfeed\u2028sep @"', '"Help\twith a tab @"', '"Help @"', "HELP@", '"help: with colon @"', '"he said \\"@\\""', "${help@}",
                                                '""', "[[bracket help @]]"]),
                   max_items=6 if tier == "quick" else 10, depth=2, dangling=False, groups=False, moddoc=False, dups=True)
     return st.fixed_dictionaries({"module": G.module(p), "layout": G.layout_choices(24), "twins": st.booleans(),
